@@ -9,8 +9,9 @@ among the selections over the candidate list.  This file closes the gap to the p
 ("the minimum over all such two-level forms"): every form made of cubes (and exclusive cubes of two
 literals or more) over the variables in which each term implies its output uses candidates only
 (`Props/C18.lean`: the candidate lists are complete and duplicate-free), and the selection it
-induces costs no more than the form (`form_to_selection`, `xor_form_to_selection`).  Hence
-`sop_mip_minimal` and `esop_mip_minimal`.
+induces costs no more than the form (`form_to_selection`, `xor_form_to_selection`, and for XOR
+lists with repeated cubes `xor_form_to_selection'`: the cubes occurring an odd number of times).
+Hence `sop_mip_minimal`, `esop_mip_minimal` and `esop_mip_minimal_general`.
 -/
 
 namespace VoluteModel.Mip
@@ -532,6 +533,210 @@ theorem esop_mip_minimal (fs : List Lut) (A X : Int) (hA : 1 ≤ A) (hX : 1 ≤ 
       intro l hl
       obtain ⟨l', hl', rfl⟩ := List.mem_map.mp hl
       exact List.Pairwise.map Term.cube (fun a b h e => h (by injection e)) (hwf l' hl').1)
+    (by
+      intro j h1 h2 b hb
+      have h1' : j < fam.length := by simpa using h1
+      rw [hval j h1' h2 b (by rw [← hB]; exact hb)]
+      simp [Term.value, Function.comp_def])
+  exact Rat.le_trans (hmin _ hr) hc
+
+/-! ## XOR forms with repeated cubes -/
+
+/-- toggling a predicate at one member of a duplicate-free list flips the parity of the count -/
+theorem filter_toggle_parity {α} [DecidableEq α] (cands : List α) (hnd : cands.Nodup) (a : α) (ha : a ∈ cands)
+    (q q' : α → Bool) (hq : ∀ c, q' c = (q c != decide (c = a))) :
+    (cands.filter q').length % 2 = ((cands.filter q).length + 1) % 2 := by
+  induction cands with
+  | nil => simp at ha
+  | cons c cs ih =>
+    have hnd' := List.nodup_cons.mp hnd
+    by_cases hca : c = a
+    · subst hca
+      have hsame : cs.filter q' = cs.filter q := by
+        apply List.filter_congr
+        intro x hx
+        have : x ≠ c := fun e => hnd'.1 (e ▸ hx)
+        rw [hq x]; simp [this]
+      have hc : q' c = !q c := by rw [hq c]; simp
+      simp only [List.filter_cons, hc, hsame]
+      cases q c <;> simp <;> omega
+    · have ha' : a ∈ cs := by
+        rcases List.mem_cons.mp ha with h | h
+        · exact absurd h.symm hca
+        · exact h
+      have hc : q' c = q c := by rw [hq c]; simp [hca]
+      have := ih hnd'.2 ha'
+      simp only [List.filter_cons, hc]
+      cases q c <;> simp <;> omega
+
+/-- XOR over a list with repetitions: the parity of the number of true members equals the parity
+    of the number of candidates that are true and occur an odd number of times -/
+theorem odd_count_parity {α} [DecidableEq α] (cands : List α) (hnd : cands.Nodup) (v : α → Bool) (l : List α)
+    (hl : ∀ x ∈ l, x ∈ cands) :
+    (cands.filter (fun c => v c && (l.count c % 2 == 1))).length % 2 = (l.filter v).length % 2 := by
+  induction l with
+  | nil =>
+    have : cands.filter (fun c => v c && (([] : List α).count c % 2 == 1)) = [] := by
+      apply List.filter_eq_nil_iff.mpr
+      intro c _; simp
+    rw [this]; rfl
+  | cons a l ih =>
+    have iha := ih (fun x hx => hl x (by simp [hx]))
+    have ha : a ∈ cands := hl a (by simp)
+    cases hva : v a with
+    | false =>
+      have : cands.filter (fun c => v c && ((a :: l).count c % 2 == 1)) = cands.filter (fun c => v c && (l.count c % 2 == 1)) := by
+        apply List.filter_congr
+        intro c _
+        by_cases hc : c = a
+        · subst hc; simp [hva]
+        · have : (a == c) = false := by simpa using fun e => hc e.symm
+          simp [List.count_cons, this]
+      rw [this, iha]
+      simp [List.filter_cons, hva]
+    | true =>
+      have := filter_toggle_parity cands hnd a ha (fun c => v c && (l.count c % 2 == 1))
+        (fun c => v c && ((a :: l).count c % 2 == 1)) (by
+          intro c
+          by_cases hc : c = a
+          · subst hc
+            simp only [List.count_cons_self, hva, Bool.true_and, decide_true]
+            rcases Nat.mod_two_eq_zero_or_one (l.count c) with e | e <;> simp [Nat.add_mod, e]
+          · have : (a == c) = false := by simpa using fun e => hc e.symm
+            simp [List.count_cons, this, hc])
+      rw [this, List.filter_cons, hva]
+      simp only [if_true, List.length_cons]
+      omega
+
+theorem length_filter_mono {α} (l : List α) (p q : α → Bool) (h : ∀ x ∈ l, p x = true → q x = true) :
+    (l.filter p).length ≤ (l.filter q).length := by
+  induction l with
+  | nil => simp
+  | cons a l ih =>
+    have iha := ih (fun x hx => h x (by simp [hx]))
+    have ha := h a (by simp)
+    simp only [List.filter_cons]
+    cases hp : p a with
+    | false => cases q a <;> simp <;> omega
+    | true => simp [ha hp]; omega
+
+/-- a smaller selection costs no more -/
+theorem cost_mono (P : Prob) (sel' sel : Nat → Nat → Bool) (hw : ∀ i, i < P.K → 0 ≤ P.w i) (hj : 0 ≤ P.join)
+    (h : ∀ i j, i < P.K → j < P.F → sel' i j = true → sel i j = true) : cost P sel' ≤ cost P sel := by
+  unfold cost
+  have hjr : (0 : Rat) ≤ (P.join : Rat) := by exact_mod_cast hj
+  have h1 : ((rangeK P).map (fun i => if usedBy P sel' i then (P.w i : Rat) else 0)).sum ≤
+      ((rangeK P).map (fun i => if usedBy P sel i then (P.w i : Rat) else 0)).sum := by
+    apply sum_le_sum
+    intro i hi
+    have hiK := mem_rangeK.mp hi
+    have hwr : (0 : Rat) ≤ (P.w i : Rat) := by exact_mod_cast hw i hiK
+    by_cases hu : usedBy P sel' i = true
+    · obtain ⟨j, hjF, hs⟩ := (usedBy_iff P sel' i).mp hu
+      have : usedBy P sel i = true := (usedBy_iff P sel i).mpr ⟨j, hjF, h i j hiK hjF hs⟩
+      rw [hu, this]; exact Rat.le_refl
+    · have hu' : usedBy P sel' i = false := by simpa using hu
+      rw [hu']
+      cases usedBy P sel i
+      · exact Rat.le_refl
+      · exact hwr
+  have h2 : ((rangeF P).map (fun j => joinGates (cnt P sel' j))).sum ≤ ((rangeF P).map (fun j => joinGates (cnt P sel j))).sum := by
+    apply sum_le_sum
+    intro j hjm
+    apply joinGates_mono
+    exact length_filter_mono _ _ _ (fun i hi hs => h i j (mem_rangeK.mp hi) (mem_rangeF.mp hjm) hs)
+  have h3 := Rat.mul_le_mul_of_nonneg_left h2 hjr
+  grind
+
+/-- the selection a family of lists with repetitions induces under XOR: the candidates that occur
+    an odd number of times -/
+def selOdd (cands : List Term) (fam : List (List Term)) (i j : Nat) : Bool :=
+  match cands[i]?, fam[j]? with
+  | some t, some l => l.count t % 2 == 1
+  | _, _ => false
+
+def valOdd (l : List Term) (b : Nat) : Option Term → Bool
+  | some t => t.value b && (l.count t % 2 == 1)
+  | none => false
+
+/-- **every XOR form over the candidates, repetitions allowed, is a selection that costs no more** -/
+theorem xor_form_to_selection' (cands : List Term) (fs : List Lut) (A X O : Int) (hO : 0 ≤ O)
+    (hcost : ∀ t ∈ cands, 0 ≤ t.cost A X) (fam : List (List Term)) (hlen : fam.length = fs.length)
+    (hnd : cands.Nodup) (hin : ∀ l ∈ fam, ∀ t ∈ l, t ∈ cands)
+    (hval : ∀ j (h1 : j < fam.length) (h2 : j < fs.length) b, b < (probOf cands fs A X O).B →
+      getBit fs[j].t b = (fam[j].map (·.value b)).foldl (fun a v => a != v) false) :
+    XorRealises (probOf cands fs A X O) (selOdd cands fam) ∧
+      cost (probOf cands fs A X O) (selOdd cands fam) ≤ formCost A X O fam := by
+  have hK : (probOf cands fs A X O).K = cands.length := rfl
+  have hF : (probOf cands fs A X O).F = fam.length := by rw [hlen]; rfl
+  constructor
+  · intro j b hj hb
+    have hj' : j < fam.length := by rw [← hF]; exact hj
+    have hj2 : j < fs.length := hj
+    have e1 : (probOf cands fs A X O).fv j b = getBit fs[j].t b := by
+      simp [probOf, List.getElem?_eq_getElem hj2]
+    rw [e1, hval j hj' hj2 b hb, xor_fold]
+    have hc : cntAt (probOf cands fs A X O) (selOdd cands fam) j (fun i => (probOf cands fs A X O).val i b) % 2 =
+        ((fam[j].map (·.value b)).filter id).length % 2 := by
+      unfold cntAt rangeK
+      rw [hK]
+      have h1 := filter_range_getElem? cands (valOdd fam[j] b)
+      have h2 : (List.range cands.length).filter (fun i => (probOf cands fs A X O).val i b && selOdd cands fam i j) =
+          (List.range cands.length).filter (fun i => valOdd fam[j] b cands[i]?) := by
+        apply List.filter_congr
+        intro i hi
+        have hi' : i < cands.length := List.mem_range.mp hi
+        simp [probOf, selOdd, valOdd, List.getElem?_eq_getElem hi', List.getElem?_eq_getElem hj']
+      rw [h2, h1, List.filter_map, List.length_map]
+      exact odd_count_parity cands hnd (fun t => t.value b) fam[j] (hin _ (List.getElem_mem hj'))
+    rw [hc]
+    simp
+  · refine Rat.le_trans (cost_mono _ (selOdd cands fam) (selOf cands fam) ?_ (show (0:Int) ≤ O from hO) ?_)
+      (selOf_cost_le cands fs A X O hO hcost fam hlen hnd hin)
+    · intro i hi
+      have hi' : i < cands.length := hi
+      show 0 ≤ ((cands[i]?.map (Term.cost A X)).getD 0)
+      rw [List.getElem?_eq_getElem hi']
+      exact hcost _ (List.getElem_mem hi')
+    · intro i j hi hj hs
+      have hi' : i < cands.length := hi
+      have hj' : j < fam.length := by rw [← hF]; exact hj
+      simp only [selOdd, List.getElem?_eq_getElem hi', List.getElem?_eq_getElem hj'] at hs
+      rw [selOf_iff cands fam i j hi' hj']
+      apply List.count_pos_iff.mp
+      have : fam[j].count cands[i] % 2 = 1 := by simpa using hs
+      omega
+
+/-- **`optimize_esop_mip`: minimum over ALL XOR-of-cubes forms, repetitions allowed.**  Given an
+    optimal solution of the programme, the selected form costs no more than any family of lists of
+    cubes over the variables, one per output, whose XOR is the output. -/
+theorem esop_mip_minimal_general (fs : List Lut) (A X : Int) (hA : 1 ≤ A) (hX : 1 ≤ X) (n0 : Nat) (hn0 : n0 ≤ 32)
+    (hn : ∀ l ∈ fs, l.n = n0) (hne : fs ≠ [])
+    (σ : Var → Rat) (hf : EsopFeasible (esopProb fs A X) σ)
+    (hopt : ∀ σ', EsopFeasible (esopProb fs A X) σ' → objective (esopProb fs A X) σ ≤ objective (esopProb fs A X) σ')
+    (fam : List (List Cube)) (hlen : fam.length = fs.length)
+    (hwf : ∀ l ∈ fam, ∀ c ∈ l, c ∈ Cube.all n0)
+    (hval : ∀ j (h1 : j < fam.length) (h2 : j < fs.length) b, b < 2 ^ n0 →
+      getBit fs[j].t b = (fam[j].map (·.value b)).foldl (fun a v => a != v) false) :
+    cost (esopProb fs A X) (decode σ) ≤ formCost A X X (fam.map (·.map Term.cube)) := by
+  have hmin := (esop_mip_spec fs A X hA hX n0 hn σ hf hopt).2
+  have hB := probOf_B (esopTerms fs) fs A X X n0 hn hne
+  have hterms : esopTerms fs = (Cube.all n0).map Term.cube := by
+    unfold esopTerms
+    cases fs with
+    | nil => exact absurd rfl hne
+    | cons l r => simp [hn l (by simp)]
+  obtain ⟨hr, hc⟩ := xor_form_to_selection' (esopTerms fs) fs A X X (by omega)
+    (fun t _ => by
+      apply term_cost_nonneg _ _ _ (by omega)
+      intro e _; omega)
+    (fam.map (·.map Term.cube)) (by simpa using hlen) (esopTerms_nodup fs n0 hn0 hn hne)
+    (by
+      intro l hl t ht
+      obtain ⟨l', hl', rfl⟩ := List.mem_map.mp hl
+      obtain ⟨c, hc, rfl⟩ := List.mem_map.mp ht
+      rw [hterms]
+      exact List.mem_map.mpr ⟨c, hwf l' hl' c hc, rfl⟩)
     (by
       intro j h1 h2 b hb
       have h1' : j < fam.length := by simpa using h1
